@@ -2068,6 +2068,9 @@ def _ufunc_logical_skipna(
     if len(array) == 0:
         # TODO: handle if this is ndim == 2 and has no length
         # any() of an empty array is False
+        if out is not None:
+            out[NULL_SLICE] = ufunc == np.all
+            return out
         return ufunc == np.all
 
     kind = array.dtype.kind
@@ -2130,6 +2133,9 @@ def _ufunc_logical_skipna(
     # all types other than strings or objects assume truthy
     if array.ndim == 1:
         return True
+    if out is not None:
+        out[NULL_SLICE] = True
+        return out
     return np.full(array.shape[0 if axis else 1], fill_value=True, dtype=bool)
 
 
